@@ -48,7 +48,7 @@ GROUPS = {
     "pattern": [("patterns", {}), ("patterns", {})],
     "keytempo": [("key", {}), ("key", {}), ("tempo", {}), ("tempo", {})],
     "align": [("align", {}), ("align", {})],
-    "sources": [("sources", {}), ("sources", {})],
+    "sources": [("sources", {}), ("sources", {}), ("sources", {"dropout": True})],
     "sonify": [("sonify", {})],
 }
 ALWAYS = [("events", {}), ("events", {}), ("kwargs", {}), ("segments", {})]
@@ -548,6 +548,11 @@ def shrink(plan, test, budget):
         cand = dict(copy.deepcopy(plan), poison="zero")
         if test(cand):
             plan = cand
+    # 7. compact the op table (cosmetic: no execution needed, indices are only names)
+    used = sorted(set(j for s in plan["actors"].values() for j in s))
+    remap = {j: k for k, j in enumerate(used)}
+    plan["ops"] = [plan["ops"][j] for j in used]
+    plan["actors"] = {a: [remap[j] for j in s] for a, s in plan["actors"].items()}
     return plan
 
 
